@@ -116,10 +116,12 @@ def rule_gj(chk):
             lo, hi = A._range(s.iter, ints)
             rv = U(s.target)
             for i in ast.walk(s):
-                if isinstance(i, ast.If) and isinstance(i.test, ast.Compare) and isinstance(i.test.ops[0], ast.Gt) \
-                        and M.call_name(i.test.left) == 'abs' and M.call_name(i.test.comparators[0]) == 'abs':
-                    cand = i.test.left.args[0]
-                    best = i.test.comparators[0].args[0]
+                if isinstance(i, ast.If) and isinstance(i.test, ast.Compare) and isinstance(i.test.ops[0], (ast.Gt, ast.GtE, ast.Lt, ast.LtE)) \
+                        and M.call_name(i.test.left) in ('abs', 'fabs') and M.call_name(i.test.comparators[0]) in ('abs', 'fabs'):
+                    # |candidate| > |best so far|, in either spelling
+                    big_side, small_side = (i.test.left, i.test.comparators[0]) if isinstance(i.test.ops[0], (ast.Gt, ast.GtE)) else (i.test.comparators[0], i.test.left)
+                    cand = big_side.args[0]
+                    best = small_side.args[0]
                     asg = [b for b in i.body if isinstance(b, ast.Assign) and isinstance(b.targets[0], ast.Name)
                            and U(b.value) == rv]
                     if asg and isinstance(cand, ast.Subscript) and isinstance(best, ast.Subscript):
